@@ -43,6 +43,19 @@ class C13(CacheProp):
                         ["tick", 3 * bdur * 10 ** 9], ["sweep"], ["tok"], ["dump"], ["rem"], ["iter"]]
             cases.append(cachegen.Case("rw%d" % j, "cache", g.header(1000, 8, True, True, 0, bdur), ops,
                                        tags=["profile:sweeprw"]))
+        # a Set of a new key issued from inside Clear (from the first OnExit it delivers): it waits in the write buffer until
+        # Clear has restarted the applier, and is then applied to the emptied cache - map and accounting agree afterwards
+        low = [h for h in (cachegen.mix(i) for i in range(1400, 1700)) if h % 256 < 40]
+        high = [h for h in (cachegen.mix(i) for i in range(1400, 1700)) if h % 256 > 215]
+        for j in range(max(2, n // 40)):
+            # (the shards are emptied in index order: the residents sit in low shards, the new key in a high one, so that an
+            # applier that is wrongly running during Clear would have inserted it before its shard is emptied)
+            hs = rng.sample(low, 3) + [rng.choice(high)]
+            ungated = ["x"] if j % 2 == 0 else []
+            ops = [["set", hs[i], 10 + i, 11 + i, 30, 0] for i in range(3)] + [["tok"]] * 4 + [["wait"], ["dump"],
+                   ["clearset", hs[3], 13, 20, 30] + ungated, ["tok"], ["tok"], ["tok"], ["wait"], ["dump"], ["rem"], ["iter"],
+                   ["get", hs[3], 13], ["get", hs[0], 10]]
+            cases.append(cachegen.Case("cl%d" % j, "cache", g.header(1000, 8, True, True, 0, 5), ops, tags=["profile:clearset"]))
         return cases
 
     def oracle(self, case, il):
